@@ -343,7 +343,7 @@ def _stream(ctx, fc, tag, seed, count, gen, known_ids, stats, corr, fonts_file=N
                     try:
                         pert = corr["files_perturbed"] if len(corr["files_perturbed"]) < 80 else None
                         for rel, e in ffc.checks_written(os.path.join(cd, which), pert,
-                                                         fontinfo=(which == "n.ufo" and (ctx.thorough() or k % 3 == 0))):
+                                                         fontinfo=(which == "n.ufo" and k % (13 if ctx.thorough() else 3) == 0)):
                             corr["files"].append(("%s/%s/%s/%s" % (tag, case, which, rel), e))
                     except Exception as e:
                         ctx.disagreements.append({"what": "cannot build the file-codec case", "case": case, "stream": tag,
